@@ -7,6 +7,9 @@
  * Every other command prints "= ..." or "! <message>" (malformed command: harness error).
  */
 #include "vf_common.h"
+#include <sys/wait.h>
+#include <sys/stat.h>
+#include <time.h>
 #include "vf_shim.h"
 #include "json_object_iterator.h"
 #include <locale.h>
@@ -27,7 +30,19 @@ static unsigned long base_serial;
 /* ---- destruction log: userdata delete callbacks ---- */
 #define DLOG_MAX 4096
 static long dlog[DLOG_MAX]; static int dlog_n;
-static void del_cb(struct json_object *j, void *ud) { (void)j; if (dlog_n < DLOG_MAX) dlog[dlog_n++] = (long)(intptr_t)ud; }
+/* the callback is handed the node that is going away: it may still look at it (type, string bytes, children and their types) */
+static volatile unsigned long del_touch;
+static void del_cb(struct json_object *j, void *ud)
+{
+	if (dlog_n < DLOG_MAX) dlog[dlog_n++] = (long)(intptr_t)ud;
+	if (!j) return;
+	switch (json_object_get_type(j)) {
+	case json_type_string: { int n = json_object_get_string_len(j); const char *s = json_object_get_string(j); del_touch += (unsigned char)s[0] + (unsigned char)s[n > 0 ? n - 1 : 0] + (unsigned char)s[n]; break; }
+	case json_type_array: { size_t i, n = json_object_array_length(j); for (i = 0; i < n && i < 4; i++) del_touch += (unsigned long)json_object_get_type(json_object_array_get_idx(j, i)); break; }
+	case json_type_object: { int k = 0; json_object_object_foreach(j, key, v) { del_touch += (unsigned char)key[0] + (unsigned long)json_object_get_type(v); if (++k >= 4) break; } break; }
+	default: del_touch += (unsigned long)json_object_get_int64(j); break;
+	}
+}
 static void emit_dlog(void)
 {
 	int i;
@@ -386,6 +401,13 @@ static void cmd_pb(int nt, char **t)
 		if (r == 0) pb_term_defined = 0;
 		pb_state(r, e, len, off); return;
 	}
+	if (!strcmp(op, "fmts")) {   /* the buffer's own contents (as a C string) formatted into itself, twice: sprintbuf(pb, "%s|%s", pb->buf, pb->buf) */
+		if (!pb_term_defined) { pb_state(0, 0, -1, 0); return; }   /* not known to be terminated (a memset came last): the driver does not run strlen over it; n = -1 says "skipped" */
+		n = (long)strlen(PB->buf);
+		errno = 0; r = sprintbuf(PB, "%s|%s", PB->buf, PB->buf); e = errno;
+		if (r >= 0) pb_term_defined = 1;
+		pb_state(r, e, n, 0); return;
+	}
 	if (!strcmp(op, "fmtc")) {   /* formatted output that contains a NUL byte (%c with 0): <la> pattern bytes, NUL, <lb> pattern bytes */
 		long la = L(t[2]), lb = L(t[3]); unsigned seed = (unsigned)UL(t[4]); unsigned char *a = (unsigned char *)malloc((size_t)la + 1), *b = (unsigned char *)malloc((size_t)lb + 1);
 		fill_pattern(a, la, seed, 1); a[la] = 0; fill_pattern(b, lb, seed + 1, 1); b[lb] = 0;
@@ -617,8 +639,9 @@ static void cmd_adump(int nt, char **t)
 /* sort by uid, nulls first (comparator is NULL-safe) */
 static int cmp_uid(const void *a, const void *b)
 {
-	struct json_object *x = *(struct json_object *const *)a, *y = *(struct json_object *const *)b; long u = uid_of(x), v = uid_of(y);
-	return (u > v) - (u < v);
+	struct json_object *x = *(struct json_object *const *)a, *y = *(struct json_object *const *)b; long u = uid_of(x), v = uid_of(y), d = (u - v) * 9973;
+	/* a difference-style comparator (what most callers write), with large magnitudes: only the sign may matter to whoever calls it */
+	return d > 2000000000L ? 2000000000 : d < -2000000000L ? -2000000000 : (int)d;
 }
 static void cmd_asort(int nt, char **t) { (void)nt; json_object_array_sort(H[hidx(t[1])], cmp_uid); ob_puts(&out, "= ok"); emit_dlog(); }
 /* ABS <harr> <hkey> -> = <found uid|-1|n> */
@@ -786,6 +809,32 @@ static void cmd_fdr(int nt, char **t)
 	{ struct obuf tmp = {0}; if (m) dump_node(&tmp, m, 0); ob_printf(&out, "%016" PRIx64 " eq=%d", m ? (uint64_t)tmp.n * 1000003u + crc32_buf((unsigned char *)tmp.b, tmp.n) : 0, json_object_equal(o, m)); free(tmp.b); }
 	json_object_put(m); json_object_put(o); json_tokener_free(tok); free(ex); free(b);
 }
+/* FIFO <delay ms> <hex>: json_object_from_file on a FIFO whose writer opens late and sends the text in two pieces with a pause -> = obj=<nonnull> eq=<equal to the in-memory parse> lasterr=<> */
+static void cmd_fifo(int nt, char **t)
+{
+	size_t n; unsigned char *b = unhex(t[2], &n); long ms = L(t[1]); char path[64]; pid_t pid; struct json_object *o, *m; struct json_tokener *tok; char *ex; int st;
+	(void)nt;
+	snprintf(path, sizeof path, "/dev/shm/vf_fifo_%d", (int)getpid());
+	unlink(path);
+	if (mkfifo(path, 0600) != 0) { ob_puts(&out, "! mkfifo"); free(b); return; }
+	pid = fork();
+	if (pid == 0) {
+		int fd; struct timespec ts; ts.tv_sec = 0; ts.tv_nsec = ms * 1000000L;
+		nanosleep(&ts, NULL);
+		fd = open(path, O_WRONLY);
+		if (fd >= 0) { size_t h = n / 2; if (write(fd, b, h) < 0) _exit(1); nanosleep(&ts, NULL); if (write(fd, b + h, n - h) < 0) _exit(1); close(fd); }
+		_exit(0);
+	}
+	_json_c_set_last_err("%s", "");
+	o = json_object_from_file(path);
+	waitpid(pid, &st, 0);
+	unlink(path);
+	tok = json_tokener_new(); ex = exact_copy(b, n + 1); ex[n] = 0;
+	m = json_tokener_parse_ex(tok, ex, (int)n);   /* what arrives through a descriptor has no terminator: a text that is still "continue" at its end is an error there */
+	if (json_tokener_get_error(tok) != json_tokener_success) { json_object_put(m); m = NULL; }
+	ob_printf(&out, "= obj=%d mem=%d eq=%d lasterr=%d", o != NULL, m != NULL, (o && m) ? json_object_equal(o, m) : (o == NULL && m == NULL), json_util_get_last_err() != NULL);
+	json_object_put(o); json_object_put(m); json_tokener_free(tok); free(ex); free(b);
+}
 /* FDF <pathhex> <mode 0 from_file nonexistent | 1 to_file_ext+from_file round trip of handle 0 with flags> [flags] [prefill bytes already in the file] [1 = json_object_to_file] */
 static void cmd_fdf(int nt, char **t)
 {
@@ -950,6 +999,13 @@ static void cmd_gstrc(int nt, char **t)
 	struct json_object *o = H[hidx(t[1])]; int n = json_object_get_string_len(o); const char *p = json_object_get_string(o); (void)nt;
 	ob_printf(&out, "= %d %u term=%d", n, crc32_buf((const unsigned char *)p, (size_t)n), (int)(unsigned char)p[n]);
 }
+/* SSELF <h> <n>   json_object_set_string_len(o, json_object_get_string(o), n): the node's own bytes handed back to it (truncation in place) */
+static void cmd_sself(int nt, char **t)
+{
+	int h = hidx(t[1]); int r; (void)nt;
+	r = json_object_set_string_len(H[h], json_object_get_string(H[h]), (int)LL(t[2]));
+	ob_printf(&out, "= %d", r);
+}
 /* GSTR <h> -> = <len> <hex bytes[0..len)> term=<byte at len> */
 static void cmd_gstr(int nt, char **t)
 {
@@ -988,6 +1044,7 @@ static void ptrs_rec(struct json_object *o)
 }
 static void cmd_ptrs(int nt, char **t) { (void)nt; ob_puts(&out, "="); ptrs_rec(H[hidx(t[1])]); }
 /* SCRAMBLE <h>: change every scalar of the tree in place through the setters (a tree that shares a node with another tree gives itself away) -> = <n changed> */
+static long scramble_ctr;
 static long scramble_rec(struct json_object *o)
 {
 	long n = 0;
@@ -995,15 +1052,19 @@ static long scramble_rec(struct json_object *o)
 	switch (json_object_get_type(o)) {
 	case json_type_array: { size_t i, k = json_object_array_length(o); for (i = 0; i < k; i++) n += scramble_rec(json_object_array_get_idx(o, i)); break; }
 	case json_type_object: { json_object_object_foreach(o, key, v) { (void)key; n += scramble_rec(v); } break; }
-	case json_type_int: json_object_int_inc(o, 12345); n++; break;
-	case json_type_double: json_object_set_double(o, json_object_get_double(o) == 0.5 ? 0.25 : 0.5); n++; break;
-	case json_type_boolean: json_object_set_boolean(o, !json_object_get_boolean(o)); n++; break;
-	case json_type_string: json_object_set_string(o, "scrambled-by-the-driver----------------------------"); n++; break;
+	/* every scalar visited gets a value made from a running number: a node reachable through two places shows the LATER number at both */
+	case json_type_int: json_object_set_int64(o, 1000 + scramble_ctr++); n++; break;
+	case json_type_double: json_object_set_double(o, 0.5 + (double)(1000 + scramble_ctr++)); n++; break;
+	case json_type_boolean: json_object_set_boolean(o, (int)((1000 + scramble_ctr++) & 1)); n++; break;
+	case json_type_string: { char b[64]; snprintf(b, sizeof b, "scrambled-by-the-driver-%ld------------------", 1000 + scramble_ctr++); json_object_set_string(o, b); n++; break; }
 	default: break;
 	}
 	return n;
 }
-static void cmd_scramble(int nt, char **t) { (void)nt; ob_printf(&out, "= %ld", scramble_rec(H[hidx(t[1])])); }
+static void cmd_scramble(int nt, char **t) { (void)nt; scramble_ctr = 0; ob_printf(&out, "= %ld", scramble_rec(H[hidx(t[1])])); }
+/* ORESIZE <hobj> <n>: lh_table_resize on the object's own table (public API; any size >= the number of members) */
+static void cmd_oresize(int nt, char **t) { struct lh_table *tb = json_object_get_object(H[hidx(t[1])]); int n = (int)L(t[2]); (void)nt; if (n < 2 * tb->count + 2) n = 2 * tb->count + 2;   /* (a size below the load factor makes lh_table_resize grow the new table behind its own back and record the wrong size: a defect of that entry point, but not one of json objects) */
+	ob_printf(&out, "= %d", lh_table_resize(tb, n)); }
 /* NAV <hroot> <hdst> <step>...   step: k<hex> or i<idx>; borrowed pointer */
 static void cmd_nav(int nt, char **t)
 {
@@ -1070,6 +1131,7 @@ static void dispatch(int nt, char **t)
 	else if (!strcmp(c, "FDW")) cmd_fdw(nt, t);
 	else if (!strcmp(c, "FDR")) cmd_fdr(nt, t);
 	else if (!strcmp(c, "FDF")) cmd_fdf(nt, t);
+	else if (!strcmp(c, "FIFO")) cmd_fifo(nt, t);
 	else if (!strcmp(c, "PSETF")) cmd_psetf(nt, t);
 	else if (!strcmp(c, "HASHFN")) cmd_hashfn(nt, t);
 	else if (!strcmp(c, "HASH")) cmd_hash(nt, t);
@@ -1087,6 +1149,7 @@ static void dispatch(int nt, char **t)
 	else if (!strcmp(c, "SSTRZ")) cmd_sstrz(nt, t);
 	else if (!strcmp(c, "GSTR")) cmd_gstr(nt, t);
 	else if (!strcmp(c, "SSTRP")) cmd_sstrp(nt, t);
+	else if (!strcmp(c, "SSELF")) cmd_sself(nt, t);
 	else if (!strcmp(c, "GSTRC")) cmd_gstrc(nt, t);
 	else if (!strcmp(c, "FAILNEXT")) cmd_failnext(nt, t);
 	else if (!strcmp(c, "EQ")) cmd_eq(nt, t);
@@ -1094,6 +1157,7 @@ static void dispatch(int nt, char **t)
 	else if (!strcmp(c, "PTRS")) cmd_ptrs(nt, t);
 	else if (!strcmp(c, "NAV")) cmd_nav(nt, t);
 	else if (!strcmp(c, "SCRAMBLE")) cmd_scramble(nt, t);
+	else if (!strcmp(c, "ORESIZE")) cmd_oresize(nt, t);
 	else if (!strcmp(c, "PB")) cmd_pb(nt, t);
 	else if (!strcmp(c, "NUM")) cmd_num(nt, t);
 	else if (!strcmp(c, "SET")) cmd_set(nt, t);
